@@ -279,7 +279,7 @@ def run(ctx):
                 if mvq != impl:
                     ctx.broken.append("correspondence min-sum posteriors %s" % (cfg,))
     ctx.sample({"parity-check matrices": [h[0] for h in Hs][:6], "wagner k": "1..10"})
-    ctx.assumptions += ["A-float: the sum-product rule (tanh / arctanh, clamps 1e-10, 0.999, 500) is not modelled over the reals: its sign consistency is not proved here; sum-product decoders are checked on the implementation (clean decoding, exact posteriors on cycle-free graphs against a float64 reference)",
+    ctx.assumptions += ["A-float: the exact sum-product rule 2 atanh(prod tanh(l/2)) is proved sign consistent over the reals (C10_sum_product_update_sign_consistent); the implementation's float32 clamps (1e-10, 0.999, 500) and its Taylor arctanh are not modelled: sum-product decoders are checked on the implementation (clean decoding, exact posteriors on cycle-free graphs against a float64 reference)",
                         "flooding BP on an acyclic graph = exact marginals is not formalised (partial); min-sum scale invariance is proved at the level of |.| and sign only and checked end-to-end on the implementation",
                         "min-sum with offset > 0 subtracts sign(v)*offset without clamping at zero: covered by the exact correspondence only"]
     ctx.cov["exhaustive"] = False
